@@ -396,18 +396,7 @@ def explain_c05(lines, exp, doc):
                 elif k > 1:
                     f['nets-sharing-a-display-name'].append(nm)
             feats[(lk, ck)] = f
-    # libraries written AFTER the design construct: parse_design leaves parse_body on a ")" and nothing more is read
-    late = []
-    seen_design = False
-    for y in doc[2:]:
-        if ec.head(y) == 'design':
-            seen_design = True
-        elif seen_design and ec.head(y) in ('library', 'external'):
-            late.append(_dn(ec.name_of(y[1])))
     for line in lines:
-        if late and (line.startswith('/order/libraries:') or any(line == '/libraries/%s: only before' % nm for nm in late)):
-            causes.add('constructs-after-design-not-read')
-            continue
         # library level: cells sharing a display name (all but the first fall back to the identifier)
         lk = None
         for k in lib_dups:
@@ -473,16 +462,21 @@ def _dupkey(seen, k):
 def run_c05_design(design, render_seed):
     text = eg.render(design, random.Random(render_seed))
     if design.get('expect') == 'reject':
-        res, info = c05_reject_case(text)
+        res, info = c05_reject_case(text, why=design.get('risky'))
     else:
         res, info = c05_text_case(text, expected=eg.expected(design))
     info['text'] = text
     return res, info
 
 
-def c05_reject_case(text, limit=CALL_LIMIT):
-    """a text whose design construct names an undeclared cell / library: the reader must refuse it
-    (and return control) instead of building some other design"""
+REJECT_KIND = {None: 'reader-accepts-undeclared-design-reference', 'design_undeclared': 'reader-accepts-undeclared-design-reference'}
+
+
+def c05_reject_case(text, limit=CALL_LIMIT, why=None):
+    """a text that says nothing the reader may build: its design construct names an undeclared cell /
+    library, an instance lacks its viewRef, an array port has size 0, there are two design constructs,
+    the last parentheses are missing or tokens follow the last parenthesis. The reader must refuse it
+    (and return control) instead of building something"""
     with ec.TempDir() as tmpdir:
         try:
             with ec.time_limit(limit):
@@ -492,8 +486,9 @@ def c05_reject_case(text, limit=CALL_LIMIT):
         except Exception as e:
             return None, {'rejected_with': type(e).__name__, 'impl': ('raise', type(e).__name__, None)}
     top = n.top_instance
-    return _res('reader-accepts-undeclared-design-reference',
-                ['top resolved to %r' % (ec._ref(top.reference) if top is not None else None)], 'unexplained'), {}
+    return _res(REJECT_KIND.get(why, 'reader-accepts-text-that-must-be-rejected'),
+                ['%s: accepted; top resolved to %r' % (why or 'text', ec._ref(top.reference) if top is not None and top.reference is not None else None)],
+                'unexplained' if why in REJECT_KIND else why), {}
 
 
 # ================================================================================================
@@ -734,6 +729,8 @@ def run(prop, tier, seed, replay):
             nbus = len(set((id(cc), n['bus']['name']) for L in design['libraries'] for cc in L['cells'] for n in cc['nets'] if n['bus']))
             hist['risky:%s' % risky] += 1
             hist['case-variation:%s' % design['case']] += 1
+            hist['design-followed-by-library:%s' % (design['design'].get('after_lib', len(design['libraries']) - 1) < len(design['libraries']) - 1)] += 1
+            hist['design-own-constructs:%d' % len(design['design'].get('extras', []))] += 1
             hist['buses:%s' % ('0' if nbus == 0 else '1-3' if nbus <= 3 else '4+')] += 1
             sizes[ncell] += 1
             if ncell >= 2:
@@ -964,7 +961,7 @@ def run_case_obj(prop, obj):
     if kind == 'c05-text':
         return c05_text_case(obj['text'])
     if kind == 'c05-reject-text':
-        return c05_reject_case(obj['text'])
+        return c05_reject_case(obj['text'], why=obj.get('why'))
     if kind == 'c05-tie-text':
         return ef.tie_one(obj['text']), {}
     if kind == 'c05-tie-texts':
